@@ -12,6 +12,7 @@ from ..spy import BatchRecorder, optimiser_spy, rows_to_indices, val_score_spy
 from .c03 import mlcl_arg
 
 QUICK_SCALE = 4  # quick budgets below are multiplied by this (kept at about half a minute on 8 processes)
+THOROUGH_SCALE = 8  # thorough budgets below are multiplied by this (about ten minutes on 16 processes)
 
 RULE = ("real fits / paths of every batched family (KernelRIM, Douglas, nonparametric models included), plain and "
         "mlcl-decorated, n in [1,25], batch_size in {None,1..n+2}, max_iter in [1,4], data rows made unique by an id "
